@@ -39,9 +39,10 @@ class Run:
     def run_impl(self, cases):
         """returns list of (case, obs, oracle_failure_or_None)"""
         out = []
+        limit = int(getattr(self.mod, "CASE_TIMEOUT", 120))
         for c in cases:
             try:
-                o = self.mod.impl(c)
+                o = run_with_timeout(self.mod.impl, c, limit)
             except Exception as e:  # harness bug, not an observation
                 raise InfraError(f"impl runner crashed on {c!r}: {traceback.format_exc()[-1500:]}")
             try:
@@ -254,6 +255,30 @@ class Run:
               f"cases={len(results)} modelled={len(modelled)} disagreements={len(mism)} oracle_failures={len(fails)} "
               f"known={len(known_hits)} violations={len(violations)} wall={ev['wall_s']}s")
         return 1 if violations else 0
+
+
+class _CaseTimeout(BaseException):
+    pass
+
+
+def run_with_timeout(f, c, seconds):
+    """A case on which the implementation does not come back (e.g. a loop that never reaches its time-out check)
+    becomes the observation Err(other, 'no result within N s') instead of hanging the check."""
+    import signal, threading
+    from .obs import Err, E_OTHER
+    if threading.current_thread() is not threading.main_thread() or not hasattr(signal, "setitimer"):
+        return f(c)
+    def handler(signum, frame):
+        raise _CaseTimeout()
+    old = signal.signal(signal.SIGALRM, handler)
+    signal.setitimer(signal.ITIMER_REAL, seconds)
+    try:
+        return f(c)
+    except _CaseTimeout:
+        return Err(E_OTHER, f"no result within {seconds} s")
+    finally:
+        signal.setitimer(signal.ITIMER_REAL, 0)
+        signal.signal(signal.SIGALRM, old)
 
 
 def sigof(f):
